@@ -84,13 +84,50 @@ def run_code_to_spec(rep, modes, n, prune=None):
     rep.cov.setdefault("trace_modes", []).extend(modes)
 
 
+def recorded_repo_tests(rep):
+    """4.3: the repository's own hexary tests run under a recorder (pytest plugin living in
+    /verif; nothing in /repo is touched) and what they did is validated by TLC like any other trace"""
+    import json
+    import os
+    import subprocess
+    import sys
+
+    from .common import REPO, VERIF, MachineryError, scratch
+    from . import hexary_driver as hd
+
+    out = os.path.join(scratch(), "recorded.json")
+    env = dict(os.environ, PYTHONPATH=VERIF + os.pathsep + REPO, VERIF_RECORD_OUT=out, PYTHONHASHSEED="0")
+    files = ["tests/core/test_hexary_trie.py", "tests/core/test_proof.py", "tests/core/test_hexary_trie_walk.py"]
+    p = subprocess.run([sys.executable, "-m", "pytest", "-q", "-p", "no:cacheprovider", "-p", "harness.recorder_plugin",
+                        "--timeout=900", "-x", "--deselect", "tests/core/test_hexary_trie.py::test_fixtures_exist"] + files,
+                       cwd=REPO, env=env, capture_output=True, text=True)
+    if not os.path.exists(out):
+        raise MachineryError("the recorder wrote nothing:\n" + p.stdout[-600:] + p.stderr[-300:])
+    d = json.load(open(out))
+    traces = d["traces"]
+    if len(traces) < 20:
+        raise MachineryError(f"only {len(traces)} executions of the repository's tests were recorded")
+    pipeline.code_to_spec(rep, "Trace_Hexary", "Trace_Hexary.cfg", traces, consts=("TraceConsts_Hexary", hd.consts))
+    rep.cov["repository_tests_recorded"] = {
+        "pytest_summary": p.stdout.strip().splitlines()[-1] if p.stdout.strip() else "",
+        "executions_validated": len(traces), "tries_followed": d["tries_followed"], "not_recorded": d["skipped"],
+        "tests": sorted({t["test"].split("::")[-1].split("[")[0] for t in traces})}
+    if p.returncode not in (0,):
+        rep.note("the repository's tests did not all pass under the recorder: " +
+                 (p.stdout.strip().splitlines()[-1] if p.stdout.strip() else "?"))
+
+
+# in which tiers a check also validates the recorded executions of the repository's own tests
+RECORDED = {"C01": ("thorough",), "C02": ("thorough",), "C04": ("thorough",), "C05": ("thorough",),
+            "C06": ("quick", "thorough"), "C07": ("thorough",)}
+
 ASSUME = ["database is a dict started empty", "hash = identity in the model: keccak collisions are outside it",
           "rlp / eth_hash from the venv and harness/realize.py are trusted",
           "exhaustive only within the bounded universe named in tlc_runs; generated histories beyond it are samples"]
 
 
 def generic(prop, tier, quick, thorough, *, opts=(), modes=("plain",), ntr=(60, 600), prune=None,
-            need_tags=(), sim=None, sim_n=(24, 600), sim_depth=(10, 14), finish=True):
+            need_tags=(), sim=None, sim_n=(24, 600), sim_depth=(10, 14), finish=True, recorded=()):
     rep = Report(prop, tier, LEVEL)
     rep.assumptions += ASSUME
     for kw in (quick if tier == "quick" else thorough):
@@ -111,6 +148,8 @@ def generic(prop, tier, quick, thorough, *, opts=(), modes=("plain",), ntr=(60, 
                          simulate=dict(num=sim_n[0] if q else sim_n[1], depth=sim_depth[0] if q else sim_depth[1]))
     if modes:
         run_code_to_spec(rep, modes, ntr[0] if tier == "quick" else ntr[1], prune)
+    if tier in (recorded or RECORDED.get(prop, ())):
+        recorded_repo_tests(rep)
     for t in need_tags:
         if not rep.cov.get("case_tags", {}).get(t):
             rep.vacuity.append(f"no replayed behaviour was tagged '{t}'")
